@@ -690,6 +690,21 @@ func runC11(c *Ctx) {
 			c11Report(c, cfg, ops, tr)
 		}
 	}
+	// a handle released long ago (more than a batch of 64 / 128 handles of its connection back) released again
+	for _, cycles := range []int{63, 127, 191} { // the next acquisition is number 65 / 129 / 193 on this connection: a recycled handle struct would be the first one again
+		ops := []poolOp{{Op: "acquire", W: 0}, {Op: "release", W: 0}}
+		for i := 0; i < cycles; i++ {
+			ops = append(ops, poolOp{Op: "acquire", W: 1}, poolOp{Op: "release", W: 1})
+		}
+		ops = append(ops, poolOp{Op: "acquire", W: 1}, poolOp{Op: "do", W: 1, Kind: "slow"}, poolOp{Op: "release-again", W: 0},
+			poolOp{Op: "acquire", W: 2}, poolOp{Op: "do", W: 2, Kind: "ok"}, poolOp{Op: "finish-slow"}, poolOp{Op: "do", W: 1, Kind: "ok"},
+			poolOp{Op: "release", W: 1}, poolOp{Op: "release", W: 2}, poolOp{Op: "close"})
+		cfg := poolCfg{MaxConns: 1, LifeMs: 60000, IdleMs: 60000, HealthMs: 1000}
+		tr := runPoolOpsIsolated(cfg, ops)
+		R.Case(fmt.Sprintf("old-handle|%d", cycles), true)
+		R.Count("sequence:directed")
+		c11Report(c, cfg, ops, tr)
+	}
 	// net.Conn.Close reporting an error must not resurrect the connection
 	for i, ops := range directed[1:3] {
 		cfg := poolCfg{MaxConns: 1, LifeMs: 60000, IdleMs: 60000, HealthMs: 1000, CloseErr: true}
